@@ -20,10 +20,10 @@ Q_ALL = ["open"] + ["q:" + n for n in QN]
 SQ_ALL = ["sopen"] + ["sq:" + n for n in QN]
 SLICE_FAMILIES_Q = [("readint", 1500, 1), ("parse", 1500, 1), ("table", 500, 1), ("strtab", 400, 1), ("ident", 800, 1),
                     ("notes", 1000, 1), ("gnuhash", 60, 1), ("sysvhash", 60, 1), ("symver", 60, 1), ("links", 1500, 1),
-                    ("elf", 8, 2), ("elfcorrupt", 25, 4), ("garbage", 150, 1), ("locate", 30, 1)]
+                    ("elf", 8, 2), ("elfcorrupt", 25, 4), ("garbage", 150, 1), ("locate", 30, 1), ("misc", 1500, 1)]
 SLICE_FAMILIES_T = [("readint", 20000, 1), ("parse", 20000, 2), ("table", 5000, 2), ("strtab", 4000, 1), ("ident", 8000, 1),
                     ("notes", 10000, 2), ("gnuhash", 600, 3), ("sysvhash", 600, 3), ("symver", 500, 3), ("links", 15000, 2),
-                    ("elf", 40, 6), ("elfcorrupt", 150, 14), ("garbage", 1500, 2), ("locate", 200, 2)]
+                    ("elf", 40, 6), ("elfcorrupt", 150, 14), ("garbage", 1500, 2), ("locate", 200, 2), ("misc", 70500, 1)]
 
 RECIPES = {
     "C04": {
